@@ -27,7 +27,8 @@ TRUSTED = ["binary64 conversion float()/np.float64() is a runtime service: the m
 ASSUMPTIONS = ["PlainData: every line of the ~A window is blank, a '#' comment, or c >= 1 quiet tokens (no blank, quote, '#', ctrl-Z inside; no "
                "read substitution matches inside — true of every plain decimal number, `subs_id_on_plain`) separated/padded by whitespace; "
                "at least one data line; default delimiter; the window ends at the end of the file or right before a '~' title line",
-               "r >= 1: with zero data lines genfromtxt yields one empty column (theorem C02_rows_needed)",
+               "r >= 1 in PlainData; sections with blank/comment lines only (r = 0) are covered separately by C02_engines_agree_empty: both "
+               "engines give no columns (numpy engine since lasio 627c42f)",
                "C02_numpy_path additionally needs: no blank/comment line inside ~A, or ~A is the last section (else genfromtxt runs into the "
                "next title and lasio silently falls back to the normal engine — same curves, theorem C02_fallback)"]
 
@@ -181,14 +182,19 @@ def run(run):
         a, b = oracle(run, text, case)
         for eng, r in (("numpy", a), ("normal", b)):
             dd.compare(run, "fixed/" + eng, text, {"engine": eng}, r, True, case=dict(case, engine=eng))
-    # empty inner ~A (fixed finding 965fe63): r = 0 is outside PlainData -> context correspondence, oracle still demands equal engines
-    case = {"text": dd.EMPTY_INNER_A, "fixed": "empty-inner-A"}
-    run.case(case, nontrivial=True, tags=["fixed-input"])
-    a, b = oracle(run, dd.EMPTY_INNER_A, case)
-    for eng, r in (("numpy", a), ("normal", b)):
-        dd.compare(run, "fixed-context/" + eng, dd.EMPTY_INNER_A, {"engine": eng}, r, False, case=dict(case, engine=eng))
-        if r["res"][0] != "ok" or [c[2] for c in r["res"][1]] != [[]]:
-            run.fail("empty-section", dict(case, engine=eng), r["res"])
+    # r = 0 inputs of fixed findings (965fe63 empty inner ~A; 627c42f numpy engine added an empty unnamed curve): outside PlainData ->
+    # context correspondence; the oracle still demands equal engines, and the expected curves are checked explicitly
+    h_noc = "~V\nVERS. 2.0 : x\nWRAP. NO : y\n~W\nNULL. -999.25 : n\n"
+    for name, text, want in (("empty-inner-A", dd.EMPTY_INNER_A, [[]]),
+                             ("r0-blank-no-curves", h_noc + "~A\n\n", []),
+                             ("r0-comment-no-curves", h_noc + "~A\n# c\n", [])):
+        case = {"text": text, "fixed": name}
+        run.case(case, nontrivial=True, tags=["fixed-input"])
+        a, b = oracle(run, text, case)
+        for eng, r in (("numpy", a), ("normal", b)):
+            dd.compare(run, "fixed-context/" + eng, text, {"engine": eng}, r, False, case=dict(case, engine=eng))
+            if r["res"][0] != "ok" or [c[2] for c in r["res"][1]] != want:
+                run.fail("empty-section", dict(case, engine=eng), r["res"])
     # (a) PlainData: sweep + random
     for doc in sweep(run.rng):
         check_plain(run, doc, "sweep")
